@@ -9,4 +9,5 @@ CONSTANTS
   FixKeyZero = TRUE
 INVARIANT TwoDefinitionsAgree
 INVARIANT KeyspaceExact
+INVARIANT ThreeAgree
 CHECK_DEADLOCK FALSE
